@@ -688,9 +688,37 @@ A1 = A1C()
 A2 = A2C()
 `
 
+// c01OpNames: operator -> the stem of its special method names
+var c01OpNames = map[string]string{"+": "add", "-": "sub", "*": "mul", "/": "truediv", "//": "floordiv", "%": "mod", "**": "pow", "<<": "lshift", ">>": "rshift", "&": "and", "|": "or", "^": "xor",
+	"<": "lt", "<=": "le", "==": "eq", "!=": "ne", ">": "gt", ">=": "ge"}
+
+// c01ProtocolPrelude: Python classes that define the special methods of the operators. IP has
+// the binary and the in-place method of every operator, BP only the binary ones, RP only the
+// reflected ones, CP the six comparisons, UP the unary ones; each logs which method ran and
+// with what operand.
+func c01ProtocolPrelude() string {
+	var ip, bp, rp, cp strings.Builder
+	ip.WriteString("class IP:\n")
+	bp.WriteString("class BP:\n")
+	rp.WriteString("class RP:\n")
+	cp.WriteString("class CP:\n")
+	for _, op := range c01BinAll {
+		n := c01OpNames[op]
+		ip.WriteString("    def __" + n + "__(self, o):\n        vh.log(('bin', '" + op + "', o))\n        return 100\n")
+		ip.WriteString("    def __i" + n + "__(self, o):\n        vh.log(('inplace', '" + op + "', o))\n        return 200\n")
+		bp.WriteString("    def __" + n + "__(self, o):\n        vh.log(('bin', '" + op + "', o))\n        return 100\n")
+		rp.WriteString("    def __r" + n + "__(self, o):\n        vh.log(('rbin', '" + op + "', o))\n        return 300\n")
+	}
+	for _, op := range []string{"<", "<=", "==", "!=", ">", ">="} {
+		cp.WriteString("    def __" + c01OpNames[op] + "__(self, o):\n        vh.log(('cmp', '" + op + "', o))\n        return 400\n")
+	}
+	up := "class UP:\n    def __neg__(self):\n        vh.log(('un', '-'))\n        return 500\n    def __pos__(self):\n        vh.log(('un', '+'))\n        return 500\n    def __invert__(self):\n        vh.log(('un', '~'))\n        return 500\n"
+	return ip.String() + bp.String() + rp.String() + cp.String() + up
+}
+
 func newC01(rc *core.RunCtx) *c01 {
 	c := &c01{rc: rc, ev: newEvaluator()}
-	g, err := c.ev.Exec(c01Prelude)
+	g, err := c.ev.Exec(c01Prelude + c01ProtocolPrelude())
 	if err != nil {
 		panic("c01 prelude: " + err.Error())
 	}
